@@ -508,6 +508,22 @@ func driveCodec(w *writer) error {
 			w.emit(doNewReq(&c))
 		case "sweep_newreq":
 			sweepNewReq(w, &c, rng)
+		case "sweep_explen":
+			// the response length each accepted request reports (what the clients' read loops stop at)
+			for q := c.From; q <= c.To; q++ {
+				cc := c
+				cc.Qty = q
+				cc.Op = "newreq"
+				if c.Fc == 23 {
+					cc.Data = []int{0, 1}
+				}
+				e := doNewReq(&cc)
+				if e["accepted"].(bool) {
+					e["op"] = "explen"
+					delete(e, "bytes")
+					w.emit(e)
+				}
+			}
 		case "parseresp":
 			w.emit(doParse(&c, true))
 		case "parsereq":
